@@ -284,6 +284,24 @@ Lemma old_teardown_window :
   ["free:simulationarchive_filename"; "free:display_settings"].
 Proof. vm_compute. reflexivity. Qed.
 
+(* ---------------------------------------------------------------- the serializer is read-only on the trajectory state *)
+(* Regenerated, across all linked files: the complete effect set of reb_simulation_save_to_stream and everything it calls.  It consists of
+     - the message buffer (error path for archive version < 3),
+     - reb_integrator_init: the SEI constants recomputed from OMEGA / OMEGAZ / dt, and the N-body ODE slot BS creates on first use,
+     - ri_ias15.N_allocated: the one store in the function itself, tied to its source text below.
+   No store to particles, t, dt, the integrator work arrays or any other member; reb_binary_diff (buffers only) has no effect at all. *)
+Lemma gen_serializer_effects :
+  serializer_effects =
+  ["extptr:messages:free"; "extptr:messages:strcpy"; "field:N_odes"; "field:messages"; "field:ri_ias15.N_allocated";
+   "field:ri_sei.OMEGAZ"; "field:ri_sei.lastdt"; "field:ri_sei.sindt"; "field:ri_sei.sindtz"; "field:ri_sei.tandt"; "field:ri_sei.tandtz";
+   "via:messages"; "via:odes"] /\
+  binary_diff_effects = [] /\
+  serializer_unconditional_stores = 0 /\
+  serializer_stores = [("r->ri_ias15.N_allocated > 3 * r->N", "r->ri_ias15.N_allocated", "3 * r->N")] /\
+  ias15_alloc_stores = [("reb_integrator_ias15_alloc", "N3 > r->ri_ias15.N_allocated", "N3")] /\
+  ias15_N3_values = ["3 * r->N"; "3 * r->ri_mercurius.encounter_N"; "3 * r->ri_trace.encounter_N"].
+Proof. vm_compute. repeat split. Qed.
+
 (* process-level hygiene of the server thread: no exit of the request loop closes a connection descriptor twice
    (fclose(fdopen(fd)) followed by close(fd) would close a descriptor that another thread may have just opened; fixed in /repo bc586ce) *)
 Lemma gen_server_single_close : server_double_close_sites = 0.
